@@ -18,7 +18,8 @@ var (
 )
 
 func removeFromWorkingTree(path string) error {
-	if _, err := os.Stat(path); !os.IsNotExist(err) {
+	// a path that cannot be reached (e.g. a parent directory was replaced by a file) has nothing to remove
+	if _, err := os.Stat(path); err == nil {
 		if err := os.Remove(path); err != nil {
 			return fmt.Errorf("fail to delete %s from the working tree: %w", path, err)
 		}
